@@ -248,15 +248,25 @@ def index_maps(spec, h, ydim, xdim):
     return iy.tolist(), ix.tolist()
 
 
+def dyadic_small(v, bits=44):
+    """exactly representable in binary64 with room to spare (so sums/products of two such values are exact)"""
+    v = Fraction(v)
+    d = v.denominator
+    return d & (d - 1) == 0 and abs(v.numerator).bit_length() <= bits and d.bit_length() <= 30
+
+
 def labels_exact(spec, xx, ydim, xdim, iy, ix):
-    """True when the coordinate labels of [xx] are exactly what rational arithmetic gives
-    (the exactness domain of the model); False -> generator escape, case discarded."""
+    """Is the case inside the exactness domain of the model?  Decided from the SPECIFICATION only (never from
+    what the code returned): every label that rational arithmetic gives, and the intermediate products, must be
+    small dyadic numbers so that binary64 computes them without rounding.  False -> generator escape, discarded."""
     a = [unfr(v) for v in spec["affine"]]
-    ys = [S.F(v) for v in xx[ydim].values.tolist()]
-    xs = [S.F(v) for v in xx[xdim].values.tolist()]
+    if not all(dyadic_small(v, 30) for v in a):
+        return False
     if is_st(spec):
-        return xs == [i * a[0] + (a[2] + a[0] / 2) for i in ix] and ys == [i * a[4] + (a[5] + a[4] / 2) for i in iy]
-    return xs == [i + Fraction(1, 2) for i in ix] and ys == [i + Fraction(1, 2) for i in iy]
+        xs = [i * a[0] + (a[2] + a[0] / 2) for i in ix]
+        ys = [i * a[4] + (a[5] + a[4] / 2) for i in iy]
+        return all(dyadic_small(v) for v in xs + ys)
+    return len(ix) < 2 ** 20 and len(iy) < 2 ** 20
 
 
 # ---------------------------------------------------------------- predicates on the implementation
